@@ -1,6 +1,6 @@
 (* C18 — property theorems (statements only; proofs live in Proofs*.v). *)
 From Coq Require Import List ZArith NArith QArith Bool.
-Require Import QV.C18.Model QV.C18.Spec QV.C18.Proofs QV.C18.Proofs_frame_awg QV.C18.Proofs_frame_dac.
+Require Import QV.C18.Model QV.C18.Spec QV.C18.Corr QV.C18.Proofs QV.C18.Proofs_frame_awg QV.C18.Proofs_frame_dac QV.C18.Proofs_obs QV.C18.Proofs_dev.
 Import ListNotations.
 
 (* Generator side of the routing invariant, for arbitrary finite histories of operations (calls that raise included)
@@ -189,3 +189,97 @@ Theorem C18_restore_example_dac :
   /\ keys (d_wins (dac_of (t_st (trun restore_dims tinit dac_h3)) 1%N)) = [0%N].
 Proof. exact dac_restore_example. Qed.
 Print Assumptions C18_restore_example_dac.
+
+(* ================================================================================================================ *)
+(* Round 3 *)
+
+(* arm_program for a COVERED name (wiring of a used name changed after registration), after any history:
+   every wired generator that holds a copy is armed with it, every wired generator that does not is disarmed, a
+   generator that is no longer wired keeps its state (so a copy on it is NOT armed: part of the known finding) *)
+Theorem C18_arm_awg_covered : forall dm h name st',
+  is_cov (t_awg (trun dm tinit h)) name = true ->
+  arm_program (t_st (trun dm tinit h)) name = (st', None) ->
+  forall a,
+    has_key name (a_progs (awg_of st' a)) = has_key name (a_progs (awg_of (t_st (trun dm tinit h)) a))
+    /\ a_armed (awg_of st' a)
+       = if memN a (known_awgs (chmap st'))
+         then (if has_key name (a_progs (awg_of st' a)) then Some name else None)
+         else a_armed (awg_of (t_st (trun dm tinit h)) a).
+Proof. exact framed_arm_awg_covered. Qed.
+Print Assumptions C18_arm_awg_covered.
+
+(* ... and every acquisition device that holds windows of the name is armed with it; the others are not touched *)
+Theorem C18_arm_dac_covered : forall dm h name st',
+  is_cov (t_dac (trun dm tinit h)) name = true ->
+  arm_program (t_st (trun dm tinit h)) name = (st', None) ->
+  forall d,
+    has_key name (d_wins (dac_of st' d)) = has_key name (d_wins (dac_of (t_st (trun dm tinit h)) d))
+    /\ d_armed (dac_of st' d)
+       = if has_key name (d_wins (dac_of st' d)) then Some name else d_armed (dac_of (t_st (trun dm tinit h)) d).
+Proof. exact framed_arm_dac_covered. Qed.
+Print Assumptions C18_arm_dac_covered.
+
+(* arm_program in any state, whatever the status of the name: by the participation record *)
+Theorem C18_arm_by_record : forall st name st',
+  arm_program st name = (st', None) ->
+  exists r, lookup name (regs st) = Some r
+    /\ (forall a, a_progs (awg_of st' a) = a_progs (awg_of st a)
+                  /\ a_armed (awg_of st' a) = if memN a (known_awgs (chmap st))
+                                              then (if memN a (r_awgs r) then Some name else None)
+                                              else a_armed (awg_of st a))
+    /\ (forall d, d_wins (dac_of st' d) = d_wins (dac_of st d)
+                  /\ d_armed (dac_of st' d) = if memN d (r_dacs r) then Some name else d_armed (dac_of st d)).
+Proof. exact arm_by_record. Qed.
+Print Assumptions C18_arm_by_record.
+
+(* update_parameters of a covered name reaches exactly the wired generators that hold a copy, each once *)
+Theorem C18_update_parameters_covered : forall dm h name ptag st',
+  is_cov (t_awg (trun dm tinit h)) name = true ->
+  update_parameters (t_st (trun dm tinit h)) name ptag = (st', None) ->
+  exists got rest, vollog st' = (name, ptag, got) :: rest /\ NoDup got
+    /\ forall a, In a got <-> memN a (known_awgs (chmap st')) = true
+                              /\ has_key name (a_progs (awg_of st' a)) = true.
+Proof. exact framed_update_parameters_covered. Qed.
+Print Assumptions C18_update_parameters_covered.
+
+(* the status tracker of the observation-level check (Corr.check_framed, which decides known finding vs VIOLATION) is
+   Spec.track_awg / track_dac on the model's own views *)
+Theorem C18_otrack_awg_is_track : forall dm na nd st o e0 cl,
+  otrack_awg o (view na nd e0 st) (view na nd (snd (step dm st o)) (fst (step dm st o))) cl = track_awg dm st o cl.
+Proof. exact otrack_awg_view. Qed.
+Print Assumptions C18_otrack_awg_is_track.
+
+Theorem C18_otrack_dac_is_track : forall dm na nd st o e0 cl,
+  otrack_dac o (view na nd e0 st) (view na nd (snd (step dm st o)) (fst (step dm st o))) cl = track_dac dm st o cl.
+Proof. exact otrack_dac_view. Qed.
+Print Assumptions C18_otrack_dac_is_track.
+
+(* the framed invariant as evaluated on observations (Corr.framed_obs_awg / framed_obs_dac) accepts the model's view
+   after EVERY history (raising calls included) on every bench that contains the recorded devices: a rejection on the
+   implementation's observation is a disagreement with the proved invariant, never an artefact of the boolean check *)
+Theorem C18_framed_obs_accepts_model : forall dm h na nd e,
+  let t := trun dm tinit h in
+  (forall n r, lookup n (regs (t_st t)) = Some r ->
+     (forall a, In a (r_awgs r) -> (N.to_nat a < na)%nat) /\ (forall d, In d (r_dacs r) -> (N.to_nat d < nd)%nat)) ->
+  framed_obs_awg dm (t_awg t) (view na nd e (t_st t)) = true
+  /\ framed_obs_dac (t_dac t) (view na nd e (t_st t)) = true.
+Proof. exact framed_obs_histories. Qed.
+Print Assumptions C18_framed_obs_accepts_model.
+
+(* towards a status per (generator, name): a set_channel / rm_channel on a channel id that leaves the members of its
+   wiring on generator a as they were (the id is moved / extended / cut on OTHER generators) keeps the three clean
+   clauses (held => registered, uses a, tuples as wired; registered and uses a => held; record names a iff it uses a)
+   of every name at generator a.  Single step, any state; the per-(generator, name) status over histories is open. *)
+Theorem C18_rewire_frame_per_device : forall dm st o id st' e n a,
+  (o = ORmChannel id \/ exists arg allow, o = OSetChannel id arg allow) ->
+  step dm st o = (st', e) ->
+  same_members sch_full_eqb (on_awg a (get_set id (chmap st))) (on_awg a (get_set id (chmap st'))) = true ->
+  clean_at dm st n a -> clean_at dm st' n a.
+Proof. exact rewire_frame_per_device. Qed.
+Print Assumptions C18_rewire_frame_per_device.
+
+(* clean_at is the per-generator reading of the clean clauses of the framed invariant *)
+Theorem C18_clean_at_all_generators : forall dm st n,
+  clean_ok dm st n <-> forall a, clean_at dm st n a.
+Proof. exact clean_ok_at. Qed.
+Print Assumptions C18_clean_at_all_generators.
